@@ -173,10 +173,11 @@ theorem convSm_map (sm : SrcMap) (φ : Nat → Nat) (is : List Instr) :
     `newOff ins` (a zero SETUPTRY operand stays zero), every instruction offset goes through
     `newOff ins`; the source map is unchanged when nothing had to be widened (then `newOff ins`
     is the identity) and otherwise consists of the entries of the old instruction offsets
-    re-keyed through `newOff ins`. -/
+    re-keyed through `newOff ins`.  The converted stream ends where the map sends the old end. -/
 theorem conv_decodes (ins : Bytes) (sm : SrcMap) (is : List Instr) (h : decodeV1 ins = some is) :
     ∃ out m, convFn ins sm = .ok (out, m) ∧
       decodeV2 out = some (is.map (relocInstr (newOff ins))) ∧
+      out.length = newOff ins ins.length ∧
       ((m = sm ∧ ∀ p, newOff ins p = p) ∨
        m = is.filterMap (fun x => (sm.lookup x.off).map (fun p => (newOff ins x.off, p)))) := by
   unfold decodeV1 decodeAll at h
@@ -191,15 +192,15 @@ theorem conv_decodes (ins : Bytes) (sm : SrcMap) (is : List Instr) (h : decodeV1
       | none => simp
       | some x => have := hnp p x hx; simp; omega
     have hfun : newOff ins = fun p => p := funext hid
-    refine ⟨ins, sm, by simp [convFn, hbj], ?_, Or.inl ⟨rfl, hid⟩⟩
+    refine ⟨ins, sm, by simp [convFn, hbj], ?_, (hid _).symm, Or.inl ⟨rfl, hid⟩⟩
     rw [hfun]
     simp only [decodeV2, decodeAll, hd, map_relocInstr_id]
   | true =>
-    obtain ⟨np, sh, hp, hag⟩ := pass1_of_decodable _ _ _ 0 _ (ins.length + 1) h (Nat.lt_succ_self _)
+    obtain ⟨np, sh, hp, hag, hlast⟩ := pass1_of_decodable _ _ _ 0 _ (ins.length + 1) h (Nat.lt_succ_self _)
     obtain ⟨h1, _, _, _, h5⟩ := pass1_inv _ _ _ _ _ _ hp
     obtain ⟨h6, h7⟩ := h5 (Nat.le_refl _)
     have hφ := relocate_bound h1 (by simpa using h6) h7
-    obtain ⟨out, m, hp2, hd2, hm⟩ := pass2_decodes (relocate np sh) sm hφ _ _ _ 0 _ (ins.length + 1) h
+    obtain ⟨out, m, hp2, hd2, hm, hol⟩ := pass2_decodes (relocate np sh) sm hφ _ _ _ 0 _ (ins.length + 1) h
       (Nat.lt_succ_self _)
     have hno : newOff ins = relocate np sh := by
       funext p; simp [newOff, hp]
@@ -207,9 +208,10 @@ theorem conv_decodes (ins : Bytes) (sm : SrcMap) (is : List Instr) (h : decodeV1
       intro j x hx
       simp [relocate, hx])
     simp at hrel
-    refine ⟨out, m, by simp [convFn, hbj, hp, hp2], ?_, Or.inr ?_⟩
+    refine ⟨out, m, by simp [convFn, hbj, hp, hp2], ?_, ?_, Or.inr ?_⟩
     · rw [hno, ← hrel]
       exact hd2 _ (Nat.lt_succ_self _)
+    · rw [hno, hol]; simp [relocate, hlast]
     · rw [hm, hno, hrel, convSm_map]
 
 /-- decodable input: the converter neither panics nor fails -/
@@ -309,16 +311,14 @@ def C11_full {δ ρ : Type} (M : Machine δ ρ) : Prop :=
 /-- What is proved of `C11_full`: it holds for every machine that is equivariant under the
     converter's offset map, given that the converted source map answers position queries like
     the original one (`hpos`; true when every source-map key is an instruction offset, which
-    holds for compiler output but is not proved here) and that the converted stream ends where
-    the offset map sends the old end (`hend`; a consequence of `conv_decodes` not spelled out).
-    Missing for the full statement: `Equivariant` for the real VM model, `hpos`, `hend`. -/
+    holds for compiler output but is not proved here).
+    Missing for the full statement: `Equivariant` for the real VM model, and `hpos`. -/
 theorem C11_partial {δ ρ : Type} (M : Machine δ ρ)
     (hM : ∀ ins, M.Equivariant (newOff ins))
-    (hpos : ∀ ins sm out m, convFn ins sm = .ok (out, m) → ∀ o, srcPos m (newOff ins o) = srcPos sm o)
-    (hend : ∀ ins sm out m, convFn ins sm = .ok (out, m) → out.length = newOff ins ins.length) :
+    (hpos : ∀ ins sm out m, convFn ins sm = .ok (out, m) → ∀ o, srcPos m (newOff ins o) = srcPos sm o) :
     C11_full M := by
   intro ins sm is h
-  obtain ⟨out, m, hc, hd, _⟩ := conv_decodes ins sm is h
+  obtain ⟨out, m, hc, hd, hlen, _⟩ := conv_decodes ins sm is h
   refine ⟨out, m, _, hc, hd, ?_⟩
   intro fuel d
   have hinj : ∀ a b, newOff ins a = newOff ins b → a = b := by
@@ -329,7 +329,7 @@ theorem C11_partial {δ ρ : Type} (M : Machine δ ρ)
     · have := newOff_strict_mono ins b a hgt; omega
   have := reloc_sim M (newOff ins) hinj (hM ins) (srcPos sm) (srcPos m) (hpos ins sm out m hc)
     ins.length is fuel 0 d
-  rw [newOff_zero, ← hend ins sm out m hc] at this
+  rw [newOff_zero, ← hlen] at this
   exact this
 
 /-- non-vacuity of `Equivariant`: a machine whose JUMP continues at its operand and whose other
